@@ -1,8 +1,145 @@
-//! C17 runner (stub). Replace the body; keep the signature `pub fn run(args: &[String])`.
+//! C17 runner: drives the REAL pipeline (collect_modules -> TypeChecker::check_with_imports ->
+//! IrCodegen (AstLowering + IrEmitter) [-> ProjectGenerator]) exactly as `cli::commands::
+//! prepare_project` does, on generated Incan programs.
+//!
+//! Input: one JSON object per line
+//!   {"dir": "<scratch dir, created/overwritten>", "files": {"main.incn": "...", "ids.incn": "..."},
+//!    "entry": "main.incn", "op": "emit" | "check" | "project", "name": "<cargo package name>",
+//!    "out": "<project dir for op=project>"}
+//! Output: one JSON object per line
+//!   {"stage": "ok" | "collect" | "check" | "codegen" | "project" | "panic",
+//!    "errors": ["..."], "main": "<rust text>", "modules": {"ids": "<rust text>"}}
+//! `stage` is the first stage that failed ("ok" = none). For op=check only the verdict is returned.
 #[allow(unused_imports)]
 use crate::common::{catch, each_line, opt_i64};
+use incan::backend::{IrCodegen, ProjectGenerator};
+use incan::cli::commands::collect_modules;
+use incan::frontend::ast::Program;
+use incan::frontend::typechecker::TypeChecker;
+use serde_json::{json, Map, Value};
+use std::fs;
+use std::path::Path;
+
+fn strip_ansi(s: &str) -> String {
+    let mut out = String::new();
+    let mut it = s.chars().peekable();
+    while let Some(c) = it.next() {
+        if c == '\u{1b}' {
+            // skip CSI ... final byte
+            if it.peek() == Some(&'[') {
+                it.next();
+                for d in it.by_ref() {
+                    if ('@'..='~').contains(&d) {
+                        break;
+                    }
+                }
+            }
+        } else {
+            out.push(c);
+        }
+    }
+    out
+}
+
+fn one(case: &Value) -> Value {
+    let dir = case["dir"].as_str().expect("dir");
+    let entry = case["entry"].as_str().unwrap_or("main.incn");
+    let op = case["op"].as_str().unwrap_or("emit");
+    let _ = fs::remove_dir_all(dir);
+    fs::create_dir_all(dir).expect("mkdir");
+    if let Some(files) = case["files"].as_object() {
+        for (name, content) in files {
+            let p = Path::new(dir).join(name);
+            if let Some(parent) = p.parent() {
+                fs::create_dir_all(parent).expect("mkdir");
+            }
+            fs::write(&p, content.as_str().unwrap_or("")).expect("write");
+        }
+    }
+    let entry_path = Path::new(dir).join(entry);
+    let entry_str = entry_path.to_string_lossy().to_string();
+
+    let modules = match collect_modules(&entry_str) {
+        Ok(m) => m,
+        Err(e) => return json!({"stage": "collect", "errors": [strip_ansi(&format!("{}", e))]}),
+    };
+    let Some(main_module) = modules.last() else {
+        return json!({"stage": "collect", "errors": ["no modules"]});
+    };
+    let dep_modules = &modules[..modules.len() - 1];
+    let deps: Vec<(&str, &Program)> = dep_modules.iter().map(|m| (m.name.as_str(), &m.ast)).collect();
+
+    let mut checker = TypeChecker::new();
+    if let Err(errs) = checker.check_with_imports(&main_module.ast, &deps) {
+        let msgs: Vec<String> = errs.iter().map(|e| strip_ansi(&e.message)).collect();
+        return json!({"stage": "check", "errors": msgs});
+    }
+    if op == "check" {
+        return json!({"stage": "ok", "errors": []});
+    }
+
+    let mut codegen = IrCodegen::new();
+    for module in dep_modules {
+        codegen.add_module(&module.name, &module.ast);
+    }
+    codegen.scan_for_serde(&main_module.ast);
+    codegen.scan_for_async(&main_module.ast);
+    codegen.scan_for_web(&main_module.ast);
+    codegen.scan_for_list_helpers(&main_module.ast);
+    let needs_serde = codegen.needs_serde();
+    let needs_tokio = codegen.needs_tokio();
+    let needs_axum = codegen.needs_axum();
+
+    let has_deps = !dep_modules.is_empty();
+    let mut mods_out = Map::new();
+    let main_code;
+    let mut nested: std::collections::HashMap<Vec<String>, String> = std::collections::HashMap::new();
+    if has_deps {
+        let module_paths: Vec<Vec<String>> = dep_modules.iter().map(|m| m.path_segments.clone()).collect();
+        match codegen.try_generate_multi_file_nested(&main_module.ast, &module_paths) {
+            Ok((m, rm)) => {
+                main_code = m;
+                let mut keys: Vec<&Vec<String>> = rm.keys().collect();
+                keys.sort();
+                for k in keys {
+                    mods_out.insert(k.join("::"), Value::String(rm[k].clone()));
+                }
+                nested = rm;
+            }
+            Err(e) => return json!({"stage": "codegen", "errors": [strip_ansi(&format!("{}", e))]}),
+        }
+    } else {
+        match codegen.try_generate(&main_module.ast) {
+            Ok(m) => main_code = m,
+            Err(e) => return json!({"stage": "codegen", "errors": [strip_ansi(&format!("{}", e))]}),
+        }
+    }
+
+    if op == "project" {
+        let out = case["out"].as_str().expect("out");
+        let name = case["name"].as_str().unwrap_or("c17prog");
+        let _ = fs::remove_dir_all(out);
+        let mut generator = ProjectGenerator::new(out, name, true);
+        generator.set_needs_serde(needs_serde);
+        generator.set_needs_tokio(needs_tokio);
+        generator.set_needs_axum(needs_axum);
+        let r = if has_deps { generator.generate_nested(&main_code, &nested) } else { generator.generate(&main_code) };
+        if let Err(e) = r {
+            return json!({"stage": "project", "errors": [format!("{}", e)]});
+        }
+    }
+    json!({"stage": "ok", "errors": [], "main": main_code, "modules": Value::Object(mods_out)})
+}
 
 pub fn run(_args: &[String]) {
-    eprintln!("c17: runner not implemented");
-    std::process::exit(2);
+    each_line(|line| {
+        let case: Value = match serde_json::from_str(line) {
+            Ok(v) => v,
+            Err(e) => return json!({"stage": "panic", "errors": [format!("bad case json: {}", e)]}).to_string(),
+        };
+        match catch(|| one(&case)) {
+            Ok(v) => v.to_string(),
+            Err(msg) => json!({"stage": "panic", "errors": [msg]}).to_string(),
+        }
+    });
 }
